@@ -28,7 +28,8 @@ RULE = ("op sequences over 3 glyphs (in a font, or stand-alone) + font guideline
         "identifiers drawn from a pool of 6 on a random subset of objects (high collision rate); 53 op kinds: "
         "insert/re-insert/remove/clear of contours, components, anchors, guidelines; point insert/remove; "
         "Contour.clear/reverse/removeSegment/split/setStartPoint; identifier setters and generateIdentifier* with "
-        "scripted candidates; pen drawing with/without skipConflictingIdentifiers; decompose (nested); "
+        "scripted candidates; insertions during which an observer of the container's *WillBeAdded notification gives "
+        "the incoming object its identifier; pen drawing with/without skipConflictingIdentifiers; decompose (nested); "
         "copyDataFromGlyph; Layer.insertGlyph; (de)serialisation; external edit + reloadGlyphs; reopen (lazy "
         "loading); plus every point-type pattern up to length 4 (sampled: 5) x every point-list edit; plus the "
         "corpus of regression/witness histories; non-trivial = at least one successful registry-changing op AND at "
@@ -151,8 +152,58 @@ def gen_cands(rng, fresh):
     return c
 
 
+def gen_tagged(rng):
+    """an insertion during which an observer of the container's `*WillBeAdded` notification gives the incoming,
+    so far unidentified, object an identifier (re-entrancy between announcement, check and registration)"""
+    t = rng.randrange(NGLYPH)
+    R = lambda: rng.randrange(12)
+    r = rng.random()
+    if r < 0.4:
+        c = gen_contour(rng)
+        inner = ["insContour", t, R(), None, c[1]]
+    elif r < 0.6:
+        inner = ["insComp", t, R(), rng.choice([b for b in range(t + 1, NGLYPH)] + [MISSING]), None]
+    elif r < 0.8:
+        inner = ["insAnchor", t, R(), None, rng.random() < 0.5]
+    else:
+        inner = ["insGuide", rng.choice([0, 1, 2, FONT, FONT]), R(), None, rng.random() < 0.5]
+    return ["tagged", rng.choice(POOL), inner]
+
+
+def effective(op):
+    """what an operation amounts to on the unchanged code: a tagged insertion is the insertion of the object
+    carrying the tag (the model is given this form; the implementation gets the observer)"""
+    if op[0] != "tagged":
+        return op
+    inner = list(op[2])
+    if inner[0] == "insContour":
+        inner[3] = op[1]
+    elif inner[0] == "insComp":
+        inner[4] = op[1]
+    else:
+        inner[3] = op[1]
+    return inner
+
+
+class _Tagger(object):
+
+    def __init__(self, value):
+        self.value = value
+        self.fired = 0
+
+    def cb(self, notification):
+        if self.value is None:
+            return
+        v, self.value = self.value, None
+        self.fired += 1
+        notification.data["object"].identifier = v
+
+
 def gen_op(rng, standalone, fresh, can_disk):
     r = rng.random()
+    if not standalone and r < 0.04:
+        return gen_tagged(rng)
+    r = (r - 0.04) / 0.96 if not standalone else r
     t = rng.randrange(NGLYPH)
     tg = rng.choice([0, 1, 2, FONT, FONT])       # container for guideline ops
     R = lambda: rng.randrange(12)
@@ -347,6 +398,8 @@ def neighbourhood(case, step, rng):
                    ["reverse", t, 0], ["roundtrip", t], ["genContourId", t, 0, [0, 1, 2, 3, 4, 5, 900]],
                    ["rmComp", t, 0], ["rmAnchor", t, 0], ["rmGuide", t, 0], ["clearContour", t, 0],
                    ["insAnchor", t, 0, 0, True], ["insAnchor", t, 0, 1, False]]
+        if not case.get("standalone"):
+            follow += [["tagged", 0, ["insContour", t, 0, None, [[2, None]]]], ["tagged", 1, ["insAnchor", t, 0, None, False]]]
     follow += [["rmGuide", FONT, 0], ["clearGuides", FONT], ["fontRoundtrip"]]
     for f in follow:
         yield dict(case, ops=prefix + [f])
@@ -376,6 +429,7 @@ def _enc_data(d):
 
 
 def enc_op(op):
+    op = effective(op)
     k = op[0]
     A = Atom(k)
     if k == "insContour":
@@ -486,6 +540,7 @@ class World(object):
         self.rejected = 0       # AssertionError results
         self.generated = 0
         self.gen_checks = []    # records for the generated-fresh clause of the oracle
+        self.tagged_fired = 0
         if uses_disk and not standalone:
             self.disk()         # saved while the glyphs are still empty
 
@@ -630,6 +685,19 @@ class World(object):
         k = op[0]
         D = self.defcon
         EMPTY = [Atom("err"), Atom("Empty")]
+        if k == "tagged":
+            inner = op[2]
+            cont = self.container(inner[1])
+            what = {"insContour": "Contour", "insComp": "Component", "insAnchor": "Anchor", "insGuide": "Guideline"}[inner[0]]
+            name = "%s.%sWillBeAdded" % ("Font" if inner[1] == FONT else "Glyph", what)
+            tagger = _Tagger(id2s(op[1]))
+            self.keep.append(tagger)
+            cont.addObserver(tagger, "cb", name)
+            try:
+                return self._do(inner)
+            finally:
+                cont.removeObserver(tagger, name)
+                self.tagged_fired += tagger.fired
         if k == "insContour":
             g = self.glyphs[op[1]]
             c = self.new_contour(op[3], op[4])
@@ -1062,7 +1130,8 @@ def run_impl(case):
             res = w.do(op)
             obs, snap = w.observe()
             outs.append([res, obs])
-            trace.append(dict(op=op, res=res, before=before, after=snap, gen=w.gen_checks[n_gen:]))
+            trace.append(dict(op=effective(op), res=res, before=before, after=snap, gen=w.gen_checks[n_gen:],
+                              tagged=op[0] == "tagged"))
     finally:
         w.close()
     viol = oracle(case, trace)
@@ -1071,6 +1140,8 @@ def run_impl(case):
     for tr in trace:
         op, res = tr["op"], tr["res"]
         kinds["op." + op[0]] = kinds.get("op." + op[0], 0) + 1
+        if tr.get("tagged"):
+            kinds["op.tagged-by-observer"] = kinds.get("op.tagged-by-observer", 0) + 1
         if isinstance(res, list) and res and res[0] == "err":
             kinds["err." + str(res[1])] = kinds.get("err." + str(res[1]), 0) + 1
             if str(res[1]) == "AssertionError":
